@@ -112,10 +112,16 @@ def shapes(rng, quick):
         Shape("list-of-assoc", ("list", [("assoc", [("k", 1)]), 4])),
         # EMPTY at the moment of the copy, grown afterwards through one name (seeded C06-6: a copy that
         # returns the source array itself when there is nothing to copy)
+        # all-keyed literals (ObjectValue) of 9 and 17 keys: a copy strategy that depends on the size of the
+        # store (seeded C06-7: cells shared above 8 keys) is only visible above its threshold
+        Shape("assoc9", ("assoc", [("k%d" % i, i + 1) for i in range(9)])),
+        Shape("assoc17", ("assoc", [("k%d" % i, i + 1) for i in range(17)])),
         Shape("list0", ("list", [])),
         Shape("holds-empty", ("list", [("list", []), 1])),
     ]
     if not quick:
+        res += [Shape("assoc%d" % n, ("assoc", [("k%d" % i, i + 1) for i in range(n)])) for n in (8, 16, 32, 33, 64, 65)]
+        res += [Shape("list%d" % n, ("list", ints(n) if n <= 25 else list(range(n, 0, -1)))) for n in (8, 9, 16, 17, 33)]
         res += [Shape("list7", ("list", ints(7))),
                 Shape("nested2b", ("list", [5, ("list", ints(3)), 6])),
                 Shape("assoc-nested2", ("assoc", [("x", ("assoc", [("u", 1)])), ("y", ("list", ints(2)))]))]
@@ -223,6 +229,9 @@ def mutations(shape, base_is_var, prefix_empty):
         scal = [k for k, x in ents if isinstance(x, int)]
         if scal:
             res.append(("store-str", (scal[0],)) + store((scal[0],)))
+            if len(scal) > 2:
+                res.append(("store-str-last", (scal[-1],)) + store((scal[-1],), 97))
+                res.append(("store-str-mid", (scal[len(scal) // 2],)) + store((scal[len(scal) // 2],), 96))
         res.append(("store-str-new", ("zz",)) + store(("zz",)))
         if strkeys:
             res.append(("unset-str", (strkeys[-1],)) + unset((strkeys[-1],)))
@@ -352,6 +361,29 @@ def routes(shape):
                 var_side("a"), var_side("p"), False, ("copy",), "param-named"))
     res.append(("param-after-default", "", shape.php_setup("$a"), shape.model_setup("a") + ["SCopy \"p\" \"a\""],
                 var_side("a"), var_side("p"), False, ("copy",), "param-default"))
+    # by-value parameters with a DECLARED type the array satisfies (seeded C06-8: the typed binding path skipped
+    # the copy), on functions, methods, static methods and closures
+    for wname in ("param-array", "param-nullable-array", "param-iterable", "param-union", "param-method", "param-static-method",
+                  "param-closure", "param-closure-typed-use"):
+        if wname == "param-iterable" and shape.lit[0] != "list":
+            continue      # `iterable` does not accept an all-keyed array (an ObjectValue) in this interpreter: a type-check matter (C07)
+        res.append((wname, "", shape.php_setup("$a"), shape.model_setup("a") + ["SCopy \"p\" \"a\""],
+                    var_side("a"), var_side("p"), False, ("copy",), wname))
+    # foreach by value over an array that holds the array: the loop variable is a COPY of the element (seeded C06-9:
+    # the element written straight into the loop variable's slot); written after the loop, through either name
+    res.append(("foreach-value", "", shape.php_setup("$a") + " $rows = [5, 0]; $rows[1] = $a; foreach ($rows as $row) { }",
+                shape.model_setup("a") + ["SLit \"rows\" (LList [LInt 5; LInt 0])", "SElemStore \"rows\" (KI 1) \"a\"",
+                                          "SElemRead \"row\" \"rows\" (KI 0)", "SElemRead \"row\" \"rows\" (KI 1)"],
+                elem_side("rows", 1), var_side("row"), False, ("copy", "orig"), None))
+    res.append(("foreach-key-value", "", shape.php_setup("$a") + " $rows = []; $rows['r'] = $a; foreach ($rows as $rk => $row) { }",
+                shape.model_setup("a") + ["SLit \"rows\" (LList [])", "SElemStore \"rows\" (KS \"r\") \"a\"",
+                                          "SElemRead \"row\" \"rows\" (KS \"r\")"],
+                elem_side("rows", "r"), var_side("row"), False, ("copy", "orig"), None))
+    # the write INSIDE the loop body: done with wrap "foreach-body"
+    res.append(("foreach-body", "", shape.php_setup("$a") + " $rows = [5, 0]; $rows[1] = $a;",
+                shape.model_setup("a") + ["SLit \"rows\" (LList [LInt 5; LInt 0])", "SElemStore \"rows\" (KI 1) \"a\"",
+                                          "SElemRead \"row\" \"rows\" (KI 1)"],
+                elem_side("rows", 1), var_side("row"), False, ("copy",), "foreach-body"))
     # promoted constructor parameter: the object keeps a copy
     res.append(("promoted-ctor", "class CP { function __construct(public $p) {} }\n", shape.php_setup("$a") + " $o = new CP($a);",
                 shape.model_setup("a") + ["SNewObj \"o\" \"p\" (LInt 0)", "SPropStore \"o\" \"p\" \"a\""],
@@ -418,11 +450,26 @@ def build_case(shape, route, mut, side):
     else:
         mstmt = "SMut (%s) %s (%s)" % (target.base, coq_list(coq_key(k) for k in full_path), act)
     mut_php = php_stmt(lv)
-    if wrap in ("param", "param-named", "param-default", "variadic"):
-        sig, call = {"param": ("$p", "viaParam($a)"), "param-named": ("$p", "viaParam(p: $a)"),
-                     "param-default": ("$q = 0, $p = []", "viaParam(1, $a)"), "variadic": ("...$xs", "viaParam($a)")}[wrap]
-        src = ("<?php\n" + SNAP + decls +
-               "function viaParam(%s) { s(\"b0\", %s); %s s(\"b1\", %s); }\n" % (sig, B.php, mut_php, B.php) +
+    if wrap == "foreach-body":
+        src = ("<?php\n" + SNAP + decls + pre_php +
+               "\ns(\"a0\", %s);\nforeach ($rows as $rk => $row) { if ($rk === 1) { s(\"b0\", $row); %s s(\"b1\", $row); } }\ns(\"a1\", %s);\n" % (A.php, mut_php, A.php))
+    elif wrap is not None:
+        body = "s(\"b0\", %s); %s s(\"b1\", %s);" % (B.php, mut_php, B.php)
+        decl, call = {
+            "param": ("function viaParam($p) { BODY }", "viaParam($a)"),
+            "param-named": ("function viaParam($p) { BODY }", "viaParam(p: $a)"),
+            "param-default": ("function viaParam($q = 0, $p = []) { BODY }", "viaParam(1, $a)"),
+            "variadic": ("function viaParam(...$xs) { BODY }", "viaParam($a)"),
+            "param-array": ("function viaParam(array $p) { BODY }", "viaParam($a)"),
+            "param-nullable-array": ("function viaParam(?array $p) { BODY }", "viaParam($a)"),
+            "param-iterable": ("function viaParam(iterable $p) { BODY }", "viaParam($a)"),
+            "param-union": ("function viaParam(array|int $p) { BODY }", "viaParam($a)"),
+            "param-method": ("class VP { function m(array $p) { BODY } }", "(new VP())->m($a)"),
+            "param-static-method": ("class VP { static function sm(array $p) { BODY } }", "VP::sm($a)"),
+            "param-closure": ("$viaClosure = function(array $p) { BODY };", "$viaClosure($a)"),
+            "param-closure-typed-use": ("$z9 = 1; $viaClosure = function(?array $p) use ($z9) { BODY };", "$viaClosure($a)"),
+        }[wrap]
+        src = ("<?php\n" + SNAP + decls + decl.replace("BODY", body) + "\n" +
                pre_php + "\ns(\"a0\", %s); %s; s(\"a1\", %s);\n" % (A.php, call, A.php))
     else:
         src = ("<?php\n" + SNAP + decls + pre_php +
